@@ -988,7 +988,7 @@ def run(ctx, n=None):
     b = Batch()
     check_consts(ctx, b)
     corpus_cases(ctx, b)
-    n = n or ctx.pick(1500, 12000)
+    n = n or ctx.pick(4000, 25000)
     for i in range(n):
         small = i < ctx.pick(60, 400)
         gen_lp(ctx, b, rng, small)
